@@ -347,6 +347,9 @@ def gen_xml_docs(rng, tier):
         ["<r><a>1</a><b>x</b></r>", "<r><a>1</a><b>x</b><a>2</a><b>y</b></r>"],
         ["<r><code>007</code><x>1.5</x></r>", "<r><code>12</code><x>123456789012345678901.5</x></r>"],
         ["<r><a>1</a><o>true</o></r>", "<r><a>2</a></r>"],
+    ["<r><a>1</a><b>x</b></r>", "<r><a>1</a><b>x</b><a>2</a><b>y</b></r>"],  # marker only in the later occurrence (fixed)
+    ['<r><x a="1">true</x><x>false</x><x>0</x></r>'],  # falsy values under a class|primitive union (fixed)
+    [f'<r xmlns:xsi="{S.XSI}"><i xsi:nil="true"/><i>false</i><i>0</i></r>'],
         ['<r><i k="1"/><i k="2" xmlns:xsi="http://www.w3.org/2001/XMLSchema-instance" xsi:nil="true"/></r>'],
         ["<r><a/><b>1</b></r>", "<r><b>2</b><c/><a>x</a></r>", "<r><c>3</c></r>"],
     ]
@@ -664,8 +667,9 @@ def interleave_blocks(names):
 
 
 def region_groups(trees):
-    """an element name whose occurrences disagree on the blocks of repeats: a child's block differs
-    (its position among the blocks, or its companions), or one block number names different blocks"""
+    """an element name whose occurrences number their blocks of repeats differently: one block number
+    names different blocks, or a child sits in two different blocks.  (An occurrence in which the child
+    does not repeat at all is fine: the marker of any occurrence is kept.)"""
     for q, els in occurrences(trees).items():
         seen = {}
         parts = [(e, interleave_blocks([c["q"] for c in e["c"]])) for e in els]
@@ -677,8 +681,10 @@ def region_groups(trees):
         for e, part in parts:
             for n in {c["q"] for c in e["c"]}:
                 blk = part.get(n)
+                if blk is None:
+                    continue
                 if n in seen and seen[n] != blk:
-                    return f"children of {q}: {n} is in block {seen[n] and (seen[n][0], sorted(seen[n][1]))} in one occurrence and {blk and (blk[0], sorted(blk[1]))} in another"
+                    return f"children of {q}: {n} is in block {(seen[n][0], sorted(seen[n][1]))} in one occurrence and {(blk[0], sorted(blk[1]))} in another"
                 seen[n] = blk
     return None
 
@@ -703,14 +709,14 @@ def falsy_lexical(t):
         return False
 
 
-def region_union_falsy(trees):
-    """an element name that is a class in one place (attributes, xsi:nil) and a plain leaf carrying
-    false / 0 / nothing in another: the class|primitive union node drops falsy results"""
+def region_empty_next_to_nil(trees):
+    """a leaf that is xsi:nil in one place and empty (no attributes, no text) in another: both become the
+    empty nillable class"""
     for q, els in occurrences(trees).items():
-        cls = [e for e in els if class_like(e)]
-        falsy = [e for e in els if not class_like(e) and falsy_lexical(e["t"])]
-        if cls and falsy:
-            return f"{q} occurs with attributes and as a plain leaf with the value {falsy[0]['t']!r}"
+        nil = [e for e in els if any(k == S.qn(S.XSI, "nil") for k, _ in e["a"])]
+        empty = [e for e in els if not class_like(e) and not (e["t"] or "")]
+        if nil and empty:
+            return f"{q} occurs with xsi:nil and as <{q}/>"
     return None
 
 
@@ -829,9 +835,9 @@ def region_order(trees):
 
 XML_REGIONS = [
     ("C13-union-member-order", region_union),
-    ("C13-sequence-from-first-occurrence", region_groups),
+    ("C13-sequence-numbers-positional", region_groups),
     ("C13-empty-occurrence-ignored", region_empty),
-    ("C13-union-node-falsy-value", region_union_falsy),
+    ("C13-empty-leaf-next-to-nil", region_empty_next_to_nil),
     ("C13-absent-nillable-rendered-nil", region_absent_nillable),
     ("C13-field-order-greedy-merge", region_order),
 ]
@@ -908,9 +914,9 @@ def clean_xml_docs(rng, hetero=0.0):
 
 WITNESS_XML = {
     "C13-union-member-order": ["<r><code>007</code></r>", "<r><code>12</code></r>"],
-    "C13-sequence-from-first-occurrence": ["<r><a>1</a><b>x</b></r>", "<r><a>1</a><b>x</b><a>2</a><b>y</b></r>"],
+    "C13-sequence-numbers-positional": ["<r><e><x>1</x><x>2</x><v>a</v></e><e><v>b</v><y>1</y><y>2</y></e></r>"],
     "C13-empty-occurrence-ignored": ["<r><v><w>1</w></v><v/></r>"],
-    "C13-union-node-falsy-value": ['<r><x a="1">true</x><x>false</x></r>'],
+    "C13-empty-leaf-next-to-nil": [f'<r xmlns:xsi="{S.XSI}"><i xsi:nil="true"/><i/></r>'],
     "C13-absent-nillable-rendered-nil": [f'<r xmlns:xsi="{S.XSI}"><a>1</a><n xsi:nil="true"/></r>', "<r><a>2</a></r>"],
     "C13-field-order-greedy-merge": ["<r><x><b>1</b><c>1</c></x><x><v>1</v><b>1</b></x><x><v>1</v><c>1</c></x></r>"],
 }
@@ -1092,9 +1098,10 @@ LEVEL_TEXT = (
     "ElementMapper/DictMapper.map + reduce_classes exist and admit every mapped occurrence (each attr present with bounds containing the "
     "occurrence's, missing attrs optional; merged_bounds_sound states it in child counts); match_type picks the first live explicit type "
     "whose strict test accepts, and int/bool values so inferred are read and written back unchanged by the binding model; connected_components is the "
-    "partition into maximal overlapping groups, independent of order. Two full-strength statements the code violates (union members read in fixed "
-    "order, interleaving marker taken from the first occurrence) are refuted by witnesses and proved under decidable hypotheses. Tied to /repo by "
+    "partition into maximal overlapping groups, independent of order. Since the repair of merge_attributes an interleaving marker of any occurrence "
+    "survives the merge (sequence_marker_kept). Three full-strength statements the code violates (union members read in fixed order, positional sequence numbers, "
+    "greedy field order) are refuted by witnesses and proved under decidable hypotheses. Tied to /repo by "
     "correspondence of every core and by the end-to-end oracle (whole pipeline, strict parse, re-serialisation) on samples of hidden regular models; "
-    "seven defects listed as known findings."
+    "eight defects listed as known findings, two repaired."
 )
 LEVEL_NOTE = "Trusted: Lean kernel, sampling correspondence, lxml, stand-in renderer; float/Decimal lexical tests abstract."
